@@ -367,6 +367,39 @@ func init() {
 		reg(n, func(ex *Exec, fn *ssa.Function, a []Value) Value { return nil })
 	}
 	reg("(*sync.Mutex).TryLock", func(ex *Exec, fn *ssa.Function, a []Value) Value { return ex.tc.True })
+	// sync.Map (single-threaded exploration): an engine map per sync.Map object, keyed by the object's address
+	syncMapOf := func(ex *Exec, recv Value) *Map {
+		key := fmt.Sprintf("syncmap:%p", recv.(*Value))
+		if m, ok := ex.ghost[key]; ok {
+			return m.(*Map)
+		}
+		m := newMap()
+		ex.ghost[key] = m
+		return m
+	}
+	reg("(*sync.Map).Load", func(ex *Exec, fn *ssa.Function, a []Value) Value {
+		m := syncMapOf(ex, a[0])
+		if i := ex.mapFind(m, a[1]); i >= 0 {
+			return Tuple{m.vals[i], ex.tc.True}
+		}
+		return Tuple{Iface{}, ex.tc.False}
+	})
+	reg("(*sync.Map).Store", func(ex *Exec, fn *ssa.Function, a []Value) Value {
+		ex.mapInsert(syncMapOf(ex, a[0]), a[1], a[2])
+		return nil
+	})
+	reg("(*sync.Map).LoadOrStore", func(ex *Exec, fn *ssa.Function, a []Value) Value {
+		m := syncMapOf(ex, a[0])
+		if i := ex.mapFind(m, a[1]); i >= 0 {
+			return Tuple{m.vals[i], ex.tc.True}
+		}
+		ex.mapInsert(m, a[1], a[2])
+		return Tuple{a[2], ex.tc.False}
+	})
+	reg("(*sync.Map).Delete", func(ex *Exec, fn *ssa.Function, a []Value) Value {
+		ex.mapDelete(syncMapOf(ex, a[0]), a[1])
+		return nil
+	})
 	reg("(*sync.Once).Do", func(ex *Exec, fn *ssa.Function, a []Value) Value {
 		p := a[0].(*Value)
 		key := fmt.Sprintf("once:%p", p)
